@@ -15,6 +15,7 @@ use futures::FutureExt;
 use crate::verif::sync::Mutex;
 #[cfg(not(deltio_verif))]
 use parking_lot::Mutex;
+use std::sync::atomic::{AtomicBool, Ordering};
 use std::sync::{Arc, Weak};
 #[cfg(not(deltio_verif))]
 use tokio::sync::{mpsc, oneshot, Notify};
@@ -295,6 +296,7 @@ impl SubscriptionActor {
         }
 
         self.deleted = true;
+        self.observer.mark_deleting();
         #[cfg(deltio_verif)]
         crate::verif::point("subscription.delete.marked");
         self.outstanding.clear();
@@ -377,6 +379,9 @@ pub(crate) struct SubscriptionObserver {
     // This shouldn't impact performance since it's only used for deletion,
     // which happens at most once per subscription.
     deleted_send: Mutex<Option<oneshot::Sender<()>>>,
+
+    /// Set as soon as the deletion of the subscription begins.
+    deleting: AtomicBool,
 }
 
 impl SubscriptionObserver {
@@ -387,7 +392,18 @@ impl SubscriptionObserver {
             deleted_send: Mutex::new(Some(deleted_send)),
             deleted_recv: deleted_recv.shared(),
             notify_messages_available: Notify::new(),
+            deleting: AtomicBool::new(false),
         }
+    }
+
+    /// Records that the deletion of the subscription has begun.
+    pub fn mark_deleting(&self) {
+        self.deleting.store(true, Ordering::SeqCst);
+    }
+
+    /// Whether the subscription is being (or has been) deleted.
+    pub fn is_deleting(&self) -> bool {
+        self.deleting.load(Ordering::SeqCst)
     }
 
     /// Notifies of new messages being available.
